@@ -146,9 +146,7 @@ class PathCtx:
         from .oblig import discharge
         tc = self.tc
         name = "%s/%s/%s#%s" % (tc.prop, tc.task.name, clause, self.label)
-        if not self.check_divisors(replay):
-            return False
-        hyps = self.hyps + list(self.dom.facts) + [d != 0 for d in self.dom.divisors]
+        hyps = self.hyps + list(self.dom.facts)
         # congruence / index reasoning only needs the path condition (linear); the non-linear axiom
         # instances and divisor hypotheses are kept for the final query
         r = discharge(self.dom, name, hyps, goal, timeout_ms=timeout_ms or (20000 if tc.tier == "thorough" else 10000),
@@ -176,7 +174,9 @@ class PathCtx:
             self.ok(clause, "no symbolic divisor")
             return val, True
         name = "%s/%s/%s#%s" % (tc.prop, tc.task.name, clause, self.label)
-        r = discharge(self.dom, name, self.hyps + list(self.dom.facts), z3.And([d != 0 for d in new]),
+        divf = set(f.get_id() for f in getattr(self.dom, "div_facts", []))
+        base = self.hyps + [f for f in self.dom.facts if f.get_id() not in divf]
+        r = discharge(self.dom, name, base, z3.And([d != 0 for d in new]),
                       timeout_ms=10000, kind=tc.task.kind, light_hyps=list(self.hyps))
         r.clause = clause
         r.replay = replay
@@ -189,7 +189,7 @@ class PathCtx:
         from .oblig import discharge
         tc = self.tc
         name = "%s/%s/canary:%s#%s" % (tc.prop, tc.task.name, clause, self.label)
-        hyps = self.hyps + list(self.dom.facts) + [d != 0 for d in self.dom.divisors]
+        hyps = self.hyps + list(self.dom.facts)
         r = discharge(self.dom, name, hyps, goal, timeout_ms=4000, use_cvc5=False, kind=tc.task.kind)
         tc.canaries.append({"name": name, "outcome": r.status})
         if r.status == "proved":
